@@ -60,6 +60,13 @@ theorem lt_spec (a b : IR) : lt a b = decide (a.value < b.value) := rfl
 theorem le_spec (a b : IR) : le a b = decide (a.value ≤ b.value) := rfl
 theorem gt_spec (a b : IR) : gt a b = decide (a.value > b.value) := rfl
 theorem ge_spec (a b : IR) : ge a b = decide (a.value ≥ b.value) := rfl
+/-- for EVERY width of the integral type: the comparison bodies contain no machine difference -/
+theorem eqW_spec (bits : Nat) (a b : IR) : eqW bits a b = decide (a.value = b.value) := rfl
+theorem neW_spec (bits : Nat) (a b : IR) : neW bits a b = decide (a.value ≠ b.value) := rfl
+theorem ltW_spec (bits : Nat) (a b : IR) : ltW bits a b = decide (a.value < b.value) := rfl
+theorem leW_spec (bits : Nat) (a b : IR) : leW bits a b = decide (a.value ≤ b.value) := rfl
+theorem gtW_spec (bits : Nat) (a b : IR) : gtW bits a b = decide (a.value > b.value) := rfl
+theorem geW_spec (bits : Nat) (a b : IR) : geW bits a b = decide (a.value ≥ b.value) := rfl
 theorem inc_spec (a : IR) : inc a = ⟨a.value + 1⟩ := rfl
 theorem dec_spec (a : IR) : dec a = ⟨a.value - 1⟩ := rfl
 theorem addAssign_spec (a : IR) (n : Int) : addAssign a n = ⟨a.value + n⟩ := rfl
